@@ -14,7 +14,7 @@ class Gen:
     def weights(self):
         w = dict(apply=10, ack=12, ready=12, exit=4, tick=9, advance=8, scan=5, map=2, imap=2, imapu=1,
                  feed=4, stale_ack=0.7, stale_ready=0.7, death=0.7, junk=0.5, discard=0.7, terminate_job=1.5,
-                 grow=1, shrink=1, close=0.3, next=2.5, dup_ready=1.0)
+                 grow=1, shrink=1, close=0.3, next=2.5, dup_ready=1.0, scan_block=2.5)
         w.update(self.focus)
         return w
 
@@ -91,6 +91,33 @@ class Gen:
             if j is None:
                 return None
             return ['ready', j, self.part_index(c.jobs[j]), rng.random() < 0.8, rng.randrange(100)]
+        if k == 'scan_block':
+            # one scan, paused between the jobs of its snapshot, other threads' events in between
+            if c.pool._timeout_handler is None:
+                return ['scan', False]
+            n = len(c.pool._cache)
+            block = [['scan_begin']]
+            for _ in range(n + (1 if rng.random() < 0.2 else 0)):
+                if rng.random() < 0.55:
+                    for _ in range(rng.choice([1, 1, 2])):
+                        mid = None
+                        for _ in range(10):
+                            kind = rng.choices(['ready', 'ack', 'advance', 'exit', 'tick', 'discard', 'apply', 'stale_ready'],
+                                               [10, 5, 3, 2, 2, 1, 2, 1])[0]
+                            saved = self.focus
+                            self.focus = {q: (1 if q == kind else 0) for q in self.weights()}
+                            try:
+                                mid = self.one()
+                            finally:
+                                self.focus = saved
+                            if mid is not None and not isinstance(mid[0], list):
+                                break
+                            mid = None
+                        if mid is not None:
+                            block.append(mid)
+                block.append(['scan_step', rng.random() < 0.3])
+            block.append(['scan_end'])
+            return block
         if k == 'dup_ready':
             # a second result message for a job that is resolved but still cached
             j = self.pick_job(lambda k, j: j._job in c.pool._cache and j.ready())
